@@ -232,7 +232,7 @@ EXTRACT_SHEETS = {
 EXTRACT_NAMES = {'rate': 'Data!$B$2', 'total': 'Data!$C$2', 'block': 'Data!$B$1:$B$3'}
 EXTRACT_FOCI = [['Calc!E1'], ['Calc!F1'], ['Calc!F2'], ['Calc!F3'], ['Calc!G1'], ['Calc!G3'], ['Calc!H1', 'Calc!H2'], ['rate', 'Calc!G2'], ['Calc!C1', 'total'],
                 ['Calc!I1', 'Calc!I2'], ['Calc!I3', 'Calc!I4'], ['Calc!H3'], ['Calc!H4', 'Calc!H5'], ['Calc!H6']]
-EXTRACT_EDITS = [('Calc!A1', 5), ('Data!B2', 60), ('Data!B1', -4), ('Calc!J2', 0)]
+EXTRACT_EDITS = [('Calc!A1', 5), ('Data!B2', 60), ('Data!B1', -4), ('Calc!J2', 0), ('Calc!B1', 100), ('Data!C2', 7)]      # the last two overwrite formula cells
 
 
 def rule_7(ctx):
@@ -288,7 +288,19 @@ def rule_7(ctx):
                     n += 1
                     ctx.expect(S.same(vf, vs), anchor, f'focus {focus}: {a} after {trail}',
                                f'{a} is {vf!r} in the full model and {vs!r} in the model extracted for {focus} (after {trail})')
-    ctx.floor(60, 'extracted-model evaluations')
+    # a formula that was switched off (XLFormula.evaluate = False: the stored value stands) is switched off in the extracted model too
+    for focus in (['Calc!B1'], ['Calc!E1'], ['Calc!D1', 'Calc!C1']):
+        full = W.Workbook(ctx, sheets=EXTRACT_SHEETS, names=EXTRACT_NAMES)
+        cell = full.model.f['cells']['Calc!B1']
+        cell.f['formula'].f['evaluate'] = False
+        cell.f['value'] = 40
+        sub = full.extracted(focus)
+        for a in focus:
+            vf, vs = full.value(a), sub.value(a)
+            n += 1
+            ctx.expect(S.same(vf, vs), anchor, f'focus {focus}: {a} with the formula of Calc!B1 switched off',
+                       f'{a} is {vf!r} in the full model and {vs!r} in the model extracted for {focus} when Calc!B1 holds the value 40 and its formula is not to be evaluated')
+    ctx.floor(64, 'extracted-model evaluations')
 
 
 RULES = [
